@@ -114,6 +114,11 @@ func fieldKind(S []any, home string, f J) string {
 	case "constref":
 		base = "constant_ref"
 	}
+	// constants other than non-empty strings: the scalar kind, the Go type the loaders hold the value in when it is
+	// not the kind's own (JSON Schema: float64 holding int64; CUE: uint8 holding int64; YAML: int32 holding int), falsy values
+	if c := constantOf(S, t); c != nil {
+		flags = append(flags, constantFlags(c)...)
+	}
 	if jbool(t["nullable"]) {
 		flags = append(flags, "nullable")
 	}
@@ -128,6 +133,44 @@ func fieldKind(S []any, home string, f J) string {
 		return base + "+" + strings.Join(flags, "+")
 	}
 	return base
+}
+
+// constantOf: the constant a field type fixes (inline or through references), nil if none.
+func constantOf(S []any, t J) J {
+	r := t
+	if jstr(t["k"]) == "ref" {
+		r = resolveJ(S, t, 8)
+	}
+	if jstr(r["k"]) == "scalar" && !isNilV(r["val"]) {
+		return r
+	}
+	return nil
+}
+
+// goTypeOfKind: the Go type ScalarType.AcceptsValue expects for a scalar kind.
+func goTypeOfKind(sk string) string {
+	switch sk {
+	case "string", "bool", "float32", "float64", "uint8", "uint16", "uint32", "uint64", "int8", "int16", "int32", "int64":
+		return sk
+	}
+	return ""
+}
+
+func constantFlags(c J) []string {
+	sk, v := jstr(c["sk"]), jmap(c["val"])
+	var out []string
+	if sk != "string" {
+		if want := goTypeOfKind(sk); want != "" && jstr(v["t"]) != want {
+			out = append(out, sk+"-held-as-"+jstr(v["t"]))
+		} else {
+			out = append(out, sk)
+		}
+	}
+	switch jstr(v["s"]) {
+	case "", "0", "false":
+		out = append(out, "falsy")
+	}
+	return out
 }
 
 func objectKind(S []any, pkg, name string) string {
@@ -202,6 +245,27 @@ func judge16(c case16, real []any) []c16Failure {
 		got[k] = jmap(b)
 		if _, ok := want[k]; !ok {
 			add("BuilderSet", "extra:"+objectKind(c.S, jstr(jmap(b)["pkg"]), jstr(jmap(jmap(b)["for"])["name"])), J{"builder": k})
+		}
+	}
+	// one builder per object, an object being identified by its own reference: two builders (under different keys)
+	// built for the same object are one too many, whatever package they sit in
+	byObject := map[string][]string{}
+	for _, b := range real {
+		f := jmap(jmap(b)["for"])
+		id := jstr(f["selfpkg"]) + "." + jstr(f["selfname"])
+		seen := false
+		for _, k := range byObject[id] {
+			seen = seen || k == key(b)
+		}
+		if !seen {
+			byObject[id] = append(byObject[id], key(b))
+		}
+	}
+	for _, b := range real {
+		f := jmap(jmap(b)["for"])
+		id := jstr(f["selfpkg"]) + "." + jstr(f["selfname"])
+		if ks := byObject[id]; len(ks) > 1 {
+			add("BuilderSet", "duplicate-object:"+objectKind(c.S, jstr(f["selfpkg"]), jstr(f["selfname"])), J{"builder": key(b), "object": id, "builders": ks})
 		}
 	}
 	for k, b := range want {
@@ -645,7 +709,9 @@ func c16Pipeline(args []string) int {
 			}
 			bs := normJSON(projBuilders(ctx.Builders))
 			stripNilChecks(bs)
-			rec, _ := json.Marshal(J{"case": J{"fields": []any{}, "variant": "pipeline:" + c.Lang + ":" + strings.Join(names, "+")},
+			// the case carries its input (what went INTO the pipeline), so that a stored violation can be replayed on the real pipeline
+			rec, _ := json.Marshal(J{"case": J{"fields": []any{}, "variant": "pipeline:" + c.Lang + ":" + strings.Join(names, "+"),
+				"input": J{"S": c.S, "passes": c.Passes, "lang": c.Lang}},
 				"S": normJSON(projSchemas(ctx.Schemas)), "B": bs})
 			w.Write(rec)
 			w.WriteByte('\n')
